@@ -199,7 +199,29 @@ func (idx *WorkspaceIndex) removeFileIndex(path string, fi *FileIndex) {
 	for payee := range fi.PayeeTemplates {
 		delete(idx.payeeTemplates, payee)
 	}
+	idx.restorePayeeTemplates(fi.PayeeTemplates)
 	idx.refreshDerived()
+}
+
+// restorePayeeTemplates re-installs, for the payees of a removed file, the template of another
+// member file that also knows the payee (files in path order, so the result is deterministic).
+func (idx *WorkspaceIndex) restorePayeeTemplates(removed map[string][]analyzer.PostingTemplate) {
+	if len(removed) == 0 {
+		return
+	}
+	paths := make([]string, 0, len(idx.fileIndexes))
+	for path := range idx.fileIndexes {
+		paths = append(paths, path)
+	}
+	sort.Strings(paths)
+	for _, path := range paths {
+		other := idx.fileIndexes[path]
+		for payee := range removed {
+			if postings, ok := other.PayeeTemplates[payee]; ok {
+				idx.payeeTemplates[payee] = postings
+			}
+		}
+	}
 }
 
 func (idx *WorkspaceIndex) decrementBy(counts map[string]int, key string, amount int) {
